@@ -118,6 +118,19 @@ func c17(c *Ctx) {
 		"centre yields an error, a known one stores the address and reconnects before the request is re-issued."
 	r.NotDecided = []string{"delivery of the error to the right caller beyond the registration order (C09)", "that the reconnect after PHONE_MIGRATE succeeds (network)"}
 	c.errorsKept("R17.X", "the request path (MakeRequest, makeRequest, sendPacket, tryToProcessErr, Reconnect)", 4, rootMethods("MakeRequest", "MakeRequestWithHintToDecoder", "makeRequest", "sendPacket", "tryToProcessErr", "Reconnect", "Disconnect"))
+	// the structured error is a function of the reply it was made from: a cache keyed by the text alone hands the
+	// first code to every later reply with that text, in every client of the process
+	r.Rule("R17.G", "nothing reachable from RpcErrorToNative / TryExpandError writes a package-level variable (a lock or a sync.Map does not excuse it): the conversion keeps no state between replies", 1)
+	{
+		var entries []*ssa.Function
+		for _, n := range []string{"RpcErrorToNative", "TryExpandError", "BadMsgErrorFromNative"} {
+			if f := c.P.Func(load.RootMod, "", n); f != nil {
+				entries = append(entries, f)
+			}
+		}
+		c.noGlobalWrites("R17.G", entries, "the error conversion: a later reply (of any client) would be answered from it")
+	}
+
 	r.Rule("R17.W", "an rpc_error that travels gzip_packed inside rpc_result reaches makeRequest as *RpcError (= R09.W filed under C17): the rpc_result arm takes the *GzipPacked wrapper off before the delivery, otherwise the caller gets (wrapper, nil) and PHONE_MIGRATE is never followed", 1)
 	c.packedResultUnwrapped("R17.W")
 
